@@ -1,0 +1,8 @@
+//go:build !verif
+
+package pubsub
+
+// Schedule points used by the out-of-tree runtime monitors; no-ops unless the
+// package is built with -tags verif.
+
+func verifPopBeforeWait(*rpcQueue) {}
